@@ -76,14 +76,15 @@ Fn_ferr == <<102, 101, 114, 114>>
 Fn_g1 == <<103, 49>>      Fn_g2 == <<103, 50>>
 Fn_gcnt == <<103, 99, 110, 116>>
 Fn_gerr == <<103, 101, 114, 114>>
-FFNames == {Fn_f1, Fn_f2, Fn_f3, Fn_fid, Fn_fodd, Fn_ferr}
+Fn_fprobe == <<102, 112, 114, 111, 98, 101>>   \* identity; the harness uses its calls to look at the document DURING a retrieval (C04)
+FFNames == {Fn_f1, Fn_f2, Fn_f3, Fn_fid, Fn_fodd, Fn_ferr, Fn_fprobe}
 AFNames == {Fn_g1, Fn_g2, Fn_gcnt, Fn_gerr}
 OkV(v) == [ok |-> TRUE, v |-> v]
 FailV == [ok |-> FALSE, v |-> Null]
 ApplyFF(n, v) ==
   CASE n = Fn_ferr -> FailV
     [] n = Fn_fodd -> IF v.t = "num" /\ (v.n \div 1000) % 2 = 1 THEN FailV ELSE OkV(Arr(<<Str(n), v>>))
-    [] n = Fn_fid  -> OkV(v)
+    [] n \in {Fn_fid, Fn_fprobe} -> OkV(v)
     [] OTHER -> OkV(Arr(<<Str(n), v>>))
 ApplyAF(n, vs) ==
   CASE n = Fn_gerr -> FailV
@@ -165,6 +166,20 @@ DetQ(q, root, ms) ==
             /\ (a.ok /\ b.ok) => ~(IsCont(a.v) /\ HasNonSelfEq(a.v)) /\ ~(IsCont(b.v) /\ HasNonSelfEq(b.v))
     [] OTHER -> TRUE
 
+\* C14 inside filter operands.  For a query that is ONE atom (no && / ||), evaluating the filter on a container
+\* evaluates a `$`-operand once and an `@`-operand once per member, in member order; with logical operators the
+\* implementation may skip operands, so the log is then left open (5.7(d)).
+OperandLog(o, root, ms) ==
+  IF o.k = "lit" THEN <<>>
+  ELSE IF o.root = "$" THEN RunPath(o, root, root, <<>>).log
+  ELSE Flat([i \in 1..Len(ms) |-> RunPath(o, root, ms[i], <<>>).log])
+AtomLogDet(q) == q.k \in {"exist", "not", "cmp", "re"}
+AtomLog(q, root, ms) ==
+  CASE q.k \in {"exist", "not"} -> OperandLog(q.p, root, ms)
+    [] q.k = "re" -> OperandLog(q.l, root, ms)
+    [] q.k = "cmp" -> OperandLog(q.l, root, ms) \o OperandLog(q.r, root, ms)
+    [] OTHER -> <<>>
+
 \* evaluate steps[i..] on cur (located at loc); `root` is the document for `$`-operands
 Ev(steps, i, root, cur, loc, set) ==
   IF i > Len(steps) THEN R(<<RV(cur, loc, set)>>, {}, <<>>)
@@ -199,8 +214,10 @@ Ev(steps, i, root, cur, loc, set) ==
              ELSE Combine(Map(LAMBDA ix : down(VL(cur.a[ix + 1], Append(loc, LI(ix)))), idxs))
     [] s.k = "filter" ->
         IF ~IsCont(cur) THEN tu("object/array")
-        ELSE LET sel == SelectSeq(KidsVL(cur, loc), LAMBDA x : Holds(s.q, root, x.v)) IN
-             IF sel = <<>> THEN mne ELSE Combine(Map(down, sel))
+        ELSE LET sel == SelectSeq(KidsVL(cur, loc), LAMBDA x : Holds(s.q, root, x.v))
+                 flog == AtomLog(s.q, root, Kids(cur))
+                 r == IF sel = <<>> THEN mne ELSE Combine(Map(down, sel)) IN
+             R(r.vals, r.errs, flog \o r.log)
     [] s.k = "rec" ->
         IF ~IsCont(cur) THEN tu("object/array")
         ELSE LET nx == steps[i + 1]
@@ -231,7 +248,7 @@ Stages(funcs, i, vals, errs, vg, log, base) ==
 \* a whole path (top level or filter operand) evaluated on cur
 RunPath(p, root, cur, loc) ==
   LET r == Ev(p.steps, 1, root, cur, loc, loc # <<>>) IN
-  Stages(p.funcs, 1, r.vals, r.errs, StepsVG(p.steps), <<>>, Len(p.steps))
+  Stages(p.funcs, 1, r.vals, r.errs, StepsVG(p.steps), r.log, Len(p.steps))
 
 \* C15: the admissible errors -- deepest step reached; there, non-type-mismatch failures first
 MaxI(errs) == CHOOSE m \in {e.i : e \in errs} : \A e \in errs : e.i <= m
@@ -259,6 +276,12 @@ DetSteps(steps, doc) ==
      /\ DetQNest(steps[i].q, doc)
      /\ \A j \in 1..Len(Conts(doc)) : DetQ(steps[i].q, doc, Kids(Conts(doc)[j]))
 Determined(p, doc) == DetSteps(p.steps, doc)
+\* are the calls of functions inside filter operands determined (single-atom filters only, not nested in operands)?
+RECURSIVE OpHasFilter(_)
+OpHasFilter(o) == o.k # "lit" /\ \E i \in 1..Len(o.steps) : o.steps[i].k = "filter"
+QOperands(q) == CASE q.k \in {"exist", "not"} -> <<q.p>> [] q.k = "re" -> <<q.l>> [] q.k = "cmp" -> <<q.l, q.r>> [] OTHER -> <<>>
+FilterLogDet(p) == \A i \in 1..Len(p.steps) : p.steps[i].k = "filter" =>
+                      AtomLogDet(p.steps[i].q) /\ \A j \in 1..Len(QOperands(p.steps[i].q)) : ~OpHasFilter(QOperands(p.steps[i].q)[j])
 
 \* ------------------------------------------------------------------ laws checked on the spec itself
 \* C08: P followed by Q  =  Q applied to each result of P (Q without `$`-operands / aggregates)
